@@ -9,6 +9,7 @@ the case is tagged `pdf-rounded` and only the in-memory value is compared.
 """
 import base64
 import io
+import math
 import re
 from fractions import Fraction
 
@@ -139,10 +140,13 @@ def gen_img(rng, index, block):
     # image-orientation: a quarter turn exchanges the intrinsic width and height
     spec['orientation'] = rng.choice([None, None, None, '90deg', '180deg', 'flip', '270deg flip', 'none'])
     spec['kind'] = rng.choice(['img', 'img', 'object', 'embed'])
+    # opacity < 1: the image is painted inside a transparency group, a content stream with its own /Resources
+    spec['opacity'] = rng.choice([None, None, None, None, '0.5', '0.25'])
     if not block and rng.random() < 0.12:
         # generated content: `::before { content: url(…) }` — an anonymous inline replaced box, every sizing
         # property at its initial value; image-resolution and image-rendering are inherited from the pseudo-element
         spec['kind'] = 'content'
+        spec['opacity'] = None
         for name in ('width', 'height', 'min_width', 'min_height', 'max_width', 'max_height'):
             spec[name] = 'auto'
         for side in ('left', 'right', 'top', 'bottom'):
@@ -154,6 +158,7 @@ def gen_img(rng, index, block):
     if rng.random() < 0.2:
         # an SVG: intrinsic width / height / ratio each possibly missing (sizing only; its painting is svg/)
         spec['kind'] = 'svg'
+        spec['opacity'] = None
         spec['svg'] = real.gen_svg(rng, all_powers_of_two=True)     # keeps every ratio a power of two
         if rng.random() < 0.4:
             # only a ratio (viewBox): point 3 of CSS 2.1 10.3.2, the one place where the containing block matters
@@ -176,6 +181,8 @@ def img_html(spec):
            f'image-resolution:{resolution_css(spec)}', f'image-rendering:{spec["rendering"]}']
     if spec.get('orientation'):
         css.append(f'image-orientation:{spec["orientation"]}')
+    if spec.get('opacity'):
+        css.append(f'opacity:{spec["opacity"]}')
     for name in ('width', 'height'):
         css.append(f'{name}:{css_len(spec[name])}')
         css.append(f'min-{name}:{css_len(spec["min_" + name])}')
@@ -318,6 +325,51 @@ def page_image_draws(page_stream):
     return out
 
 
+def pdf_resource_tree(objects, resources_number):
+    """The /Resources dictionary `resources_number` of an uncompressed PDF as `showTree` prints it: XObject
+    entries in dictionary order (image: its name; Form XObject: `(key (XObject…) (Pattern…))` of its own
+    /Resources), then Pattern entries likewise."""
+    text = objects[resources_number]
+    m = re.search(r'/XObject <<(.*?)>>/Pattern <<(.*?)>>', text, re.S)
+    assert m, text
+    parts = []
+    for body in m.groups():
+        items = []
+        for key, number in re.findall(r'/(\S+) (\d+) 0 R', body):
+            target = objects[int(number)]
+            if '/Subtype /Image' in target.split('stream')[0]:
+                items.append(key)
+            else:
+                own = re.search(r'/Resources (\d+) 0 R', target.split('stream')[0])
+                assert own, target[:200]
+                items.append(f'({key} {pdf_resource_tree(objects, int(own.group(1)))})')
+        parts.append('(' + ' '.join(items) + ')')
+    return ' '.join(parts)
+
+
+def pdf_undefined_uses(objects):
+    """[(object number, name)] for every `/name Do` of a content stream (page contents, Form XObject, tiling
+    pattern) whose name is not in the /Resources /XObject of that very stream."""
+    owner = {}                       # content stream object -> its resources object
+    for number, text in objects.items():
+        head = text.split('stream')[0]
+        if '/Type /Page/' in head or head.startswith('<</Type /Page/'):
+            contents = re.search(r'/Contents (\d+) 0 R', head)
+            res = re.search(r'/Resources (\d+) 0 R', head)
+            if contents and res:
+                owner[int(contents.group(1))] = int(res.group(1))
+        elif 'stream' in text and '/Resources ' in head:
+            owner[number] = int(re.search(r'/Resources (\d+) 0 R', head).group(1))
+    missing = []
+    for number, res in owner.items():
+        m = re.search(r'/XObject <<(.*?)>>', objects[res], re.S)
+        defined = set(re.findall(r'/(\S+) \d+ 0 R', m.group(1))) if m else set()
+        for name in re.findall(r'/(\S+) Do', stream_of(objects[number])):
+            if name not in defined:
+                missing.append((number, name))
+    return missing
+
+
 def dim_wire(d):
     return d if isinstance(d, str) else [d[0], d[1]]
 
@@ -346,18 +398,33 @@ def run_document(doc):
                 if isinstance(child, boxes.ReplacedBox) and child_element is not None:
                     containers[child_element.get('id')] = box
     pdf_text, objects = pdf_objects(document.write_pdf(uncompressed_pdf=True))
-    page_stream = max((stream_of(o) for o in objects.values() if ' cm\nq\n' in o), key=len, default='')
+    page_object = next(o for o in objects.values() if o.startswith('<</Type /Page/'))
+    page_stream = stream_of(objects[int(re.search(r'/Contents (\d+) 0 R', page_object).group(1))])
     resources = re.search(r'/XObject <<(.*?)>>/Pattern <<(.*?)>>', pdf_text, re.S)
-    draws = page_image_draws(page_stream)
+    page_draws = page_image_draws(page_stream)
     cases = []
     meta_doc = {'doc': doc, 'html': html}
     cb = doc['cb']
 
     # ---- <img>: used size, painted rectangle
     rasters = [spec for spec in doc['imgs'] if spec.get('kind') != 'svg']
-    assert len(draws) == len(rasters), (len(draws), len(rasters))
-    img_draws, bg_draws = [], []
-    draw_of = {spec['id']: draw for spec, draw in zip(rasters, draws)}
+    # images with opacity < 1 are stacking contexts: painted after the others (CSS 2.1 appendix E, step 8), in
+    # tree order, each inside its own transparency group `/xN Do` of the page stream
+    resources_text = re.search(r'/XObject <<(.*?)>>/Pattern <<(.*?)>>', pdf_text, re.S)
+    page_groups = dict(re.findall(r'/(x\d+) (\d+) 0 R', resources_text.group(1))) if resources_text else {}
+    opacity_groups = re.findall(r'/A0\.\d+ gs\n/a0\.\d+ gs\n/(x\d+) Do', page_stream)
+    group_draws = []
+    for key in opacity_groups:
+        found = page_image_draws(stream_of(objects[int(page_groups[key])]))
+        assert len(found) == 1, (key, found)
+        group_draws.append(found[0])
+    plain = [spec for spec in rasters if not spec.get('opacity')]
+    faded = [spec for spec in rasters if spec.get('opacity')]
+    assert (len(page_draws), len(group_draws)) == (len(plain), len(faded)), (
+        len(page_draws), len(group_draws), len(plain), len(faded))
+    img_draws, faded_draws, bg_draws = [], [], []
+    draw_of = {spec['id']: draw for spec, draw in zip(plain, page_draws)}
+    draw_of.update({spec['id']: draw for spec, draw in zip(faded, group_draws)})
     for spec in doc['imgs']:
         draw = draw_of.get(spec['id'])
         box = by_id[spec['id']]
@@ -397,7 +464,8 @@ def run_document(doc):
             # of this box is not exact, only its used size (snapped) was compared
             cases[-1][4].append('doc:geom-inexact')
             if not is_svg:
-                img_draws.append(['i', image.id, spec['rendering'] == 'auto', 1, False])
+                leaf = ['i', image.id, spec['rendering'] == 'auto', 1, False]
+                (faded_draws.append(['g', leaf]) if spec.get('opacity') else img_draws.append(leaf))
             continue
         rect = replaced.replacedbox_layout(box)
         intr = [None if v is None else F(v) for v in image.get_intrinsic_size(float(spec['res']), 20.0)]
@@ -407,7 +475,8 @@ def run_document(doc):
         if is_svg:
             continue
         name = f'i{image.id}{int(spec["rendering"] == "auto")}'
-        img_draws.append(['i', image.id, spec['rendering'] == 'auto', 1, False])
+        leaf = ['i', image.id, spec['rendering'] == 'auto', 1, False]
+        (faded_draws.append(['g', leaf]) if spec.get('opacity') else img_draws.append(leaf))
         x, y, w, h, pdf_name = draw
         line = sx.line('drawrep', True, real.geom_wire(g), spec['fit'], position_wire(spec['position']),
                        spec['res'], F(image.ratio), image.id, pw, ph, None, SCALE, -SCALE,
@@ -426,7 +495,7 @@ def run_document(doc):
     group_refs = re.findall(r'/(x\d+) (\d+) 0 R', resources.group(1)) if resources else []
     pattern_refs = re.findall(r'/(p\d+) (\d+) 0 R', resources.group(2)) if resources else []
     # page-level group invocations, in paint order
-    group_order = re.findall(r'/(x\d+) Do', page_stream)
+    group_order = [key for key in re.findall(r'/(x\d+) Do', page_stream) if key not in opacity_groups]
     pattern_order = re.findall(r'/(p\d+) scn', page_stream)
     groups, patterns = dict(group_refs), dict(pattern_refs)
     gi = pi = 0
@@ -519,7 +588,7 @@ def run_document(doc):
     # ---- one image XObject per distinct (image, interpolate)
     # paint order (CSS 2.1 appendix E): backgrounds of the block-level boxes (step 4), then replaced
     # content of block-level replaced elements and inline content (step 7), each in tree order
-    paint_draws = bg_draws + img_draws
+    paint_draws = bg_draws + img_draws + faded_draws
     count = pdf_text.count('/Subtype /Image')
     numbers = {}
     for name, number in re.findall(r'/(' + IMG_NAME + r') (\d+) 0 R', pdf_text):
@@ -531,7 +600,36 @@ def run_document(doc):
     uses = len(doc['imgs']) + len(doc['bgs'])
     cases.append((line, out, dict(meta_doc, what='imgcount'), uses > count,
                   [f'doc:xobjects{min(count, 6)}', f'doc:reuse{min(uses - count, 4)}']))
+
+    # ---- every content stream names the images it paints in its own resources (page, groups, patterns):
+    # the resource dictionaries of the file against those of the model, names in dictionary order
+    page = next(o for o in objects.values() if o.startswith('<</Type /Page/'))
+    page_resources = int(re.search(r'/Resources (\d+) 0 R', page).group(1))
+    cases.append((sx.line('restree', paint_draws), ok(pdf_resource_tree(objects, page_resources)),
+                  dict(meta_doc, what='restree'), len(paint_draws) > 1,
+                  ['doc:restree', f'doc:restree-scopes{min(len(paint_draws) - len(img_draws) + 1, 4)}'] +
+                  (['doc:restree-shared-across-scopes'] if _shared_across_scopes(paint_draws) else [])))
+    undefined = pdf_undefined_uses(objects)
+    assert not undefined, f'content streams paint XObjects their own /Resources do not define: {undefined}'
     return cases
+
+
+def _leaves(draws):
+    for d in draws:
+        if d[0] == 'i':
+            yield d
+        else:
+            yield from _leaves(d[1:])
+
+
+def _shared_across_scopes(paint_draws):
+    """An image is painted in two different resource scopes (page content / a group / a pattern)."""
+    seen = {}
+    for index, top in enumerate(paint_draws):
+        scope = 'page' if top[0] == 'i' else index
+        for leaf in _leaves([top]):
+            seen.setdefault((leaf[1], leaf[2]), set()).add(scope)
+    return any(len(v) > 1 for v in seen.values())
 
 
 class _Recorder:
@@ -605,19 +703,32 @@ def judge_document(doc):
 SVG_RATIO_ONLY = "data:image/svg+xml,<svg xmlns='http://www.w3.org/2000/svg' viewBox='0 0 2 1'></svg>"
 
 
-def finding_abs_replaced_ratio_only():
-    """Known finding: absolutely positioned image with only a ratio takes the x-coordinate of its
-    containing block as width.  True while it still fails."""
+def regression_abs_replaced_ratio_only():
+    """Fixed finding abs-replaced-ratio-only-width (a8f8a59): an absolutely positioned image with only a ratio
+    took the x-coordinate of its containing block as width.  -> regression cases: the former replay document
+    (containing block 200 wide at x = 40, and at x = 0) rendered, the used size of the <img> reported through
+    the `absrep` protocol line of that box."""
     from weasyprint.formatting_structure import boxes
-    html = ('<style>@page{size:500px;margin:0}body{margin:0}</style>'
-            '<div style="position:relative;width:200px;margin-left:40px">'
-            f'<img src="{SVG_RATIO_ONLY}" style="display:block;position:absolute"></div>')
-    document = docs.render(html)
-    for box in document.pages[0]._page_box.descendants():
-        box = getattr(box, '_box', box)
-        if isinstance(box, boxes.ReplacedBox):
-            return box.width != 200
-    return True
+    cases = []
+    for margin in (40, 0):
+        html = ('<style>@page{size:500px;margin:0}body{margin:0}</style>'
+                f'<div style="position:relative;width:200px;margin-left:{margin}px">'
+                f'<img src="{SVG_RATIO_ONLY}" style="display:block;position:absolute"></div>')
+
+        def run(html=html):
+            document = docs.render(html)
+            for box in document.pages[0]._page_box.descendants():
+                box = getattr(box, '_box', box)
+                if isinstance(box, boxes.ReplacedBox):
+                    return real.ok(f'{fmt(Fraction(box.width))} {fmt(Fraction(box.height))}')
+            return 'no-image-box'
+        out = docs.outcome(run)
+        rbox = ['auto', 'auto', 0, 0, 0, 0, 0, 0, 0, 0, 0, math.inf, 0, math.inf, 0, False]
+        line = sx.line('absrep', True, [None, None, Fraction(2)], margin, 0, 200, 0, rbox)
+        cases.append((line, out, {'fn': 'absolute_replaced', 'html': html,
+                                  'regression': 'abs-replaced-ratio-only-width'}, True,
+                      ['regression:abs-replaced-ratio-only-width']))
+    return cases
 
 
 def finding_no_repeat_axis_wraps():
